@@ -33,6 +33,7 @@ class Scenario:
         self.must_admit = False     # the passes must accept the node
         self.must_reject = False    # the passes must reject the node
         self.pass_blocks = None     # Pass1._cur_blocks around the node
+        self.admission_only = False  # do not run the generator
 
 
 def _opt(*vals):
@@ -189,6 +190,30 @@ def scenarios(sim, cls):
                 sc.must_admit = True
             else:
                 sc.must_reject = True
+            out.append(sc)
+        # records: a single record and an array of the same TYPE are
+        # different types
+        rec = lambda arr=False: AType('USER', is_array=arr, user='rec',
+                                      nodim=arr)
+        for ptype_arr, arg_arr in itertools.product((False, True),
+                                                    repeat=2):
+            r = ARoutine('s', 'sub', [('p0', rec(ptype_arr))])
+            if arg_arr:
+                arg = ANode(sim, 'ArrayPass', identifier='a',
+                            type=AType('USER', is_array=True, user='rec'))
+            else:
+                arg = L('INTEGER')
+                arg.fields['type'] = AType('USER', user='rec')
+                arg.fields['base_type'] = AType('USER', user='rec')
+            sc = Scenario(cls, f's(rec{"()" if arg_arr else ""} -> '
+                               f'rec{"()" if ptype_arr else ""})',
+                          ANode(sim, cls, name='s', args=[arg]),
+                          routines={'s': r})
+            if ptype_arr == arg_arr:
+                sc.must_admit = True
+            else:
+                sc.must_reject = True
+            sc.admission_only = True
             out.append(sc)
     elif cls == 'ColorStmt':
         for f, b, bd in itertools.product([None] + list(TY), repeat=3):
@@ -372,6 +397,11 @@ def scenarios(sim, cls):
     elif cls == 'RestoreStmt':
         add('plain', ANode(sim, cls, target=None, canonical_target=None))
         add('label', ANode(sim, cls, target='a', canonical_target='a'))
+        # line number 0 is a target like any other (0 is falsy in Python)
+        add('lineno0', ANode(sim, cls, target=0,
+                             canonical_target='_lineno_0'))
+        add('lineno10', ANode(sim, cls, target=10,
+                              canonical_target='_lineno_10'))
     elif cls == 'ResumeStmt':
         add('resume', ANode(sim, cls, next=False))
         add('resume next', ANode(sim, cls, next=True))
